@@ -56,6 +56,28 @@ FIXED = [
   "criteria pickled to an empty state without __reduce__: pickle.loads raised TypeError (__cinit__ takes exactly 2 positional arguments) for a fitted estimator holding a criterion instance"),
  ("C09", "LinearRegressorCriterion.impurity_improvement:child-weights-ignore-the-split", "LinearRegressorCriterion updates weighted_n_left",
   "LinearRegressorCriterion inherited the no-op _update_weights: weighted_n_left/right never updated, impurity_improvement ignored the split (witness n=2, w=[3,0], pos=1: 0.0 instead of -1)"),
+ ("C03", "PermutationReciprocalTransformer:refit:fitted-state-differs:knn_,knn_perm_", "drops the nearest-neighbour index of the previous fit",
+  "the lazily built NearestNeighbors cache (knn_, knn_perm_) survived a refit; the fit skeleton under closest=True was rejected by the verified definite-rewrite analysis; replay fit(A); transform(unseen); fit(B) vs fresh"),
+ ("C01", "SkBase.set_params:other-keys-changed:<own>", "SkBase.set_params updates the given parameters",
+  "SkBase.set_params replaced all parameters: SkBase(a=1,b='s').set_params(a=2) dropped b"),
+ ("C01", "SkBaseTransformLearner.set_params:returns-None", "SkBaseTransformLearner.set_params returns self",
+  "SkBaseTransformLearner.set_params returned None, never stored `method`, left method_ bound to the old model, rejected its own keys"),
+ ("C01", "SkBaseTransformStacking.set_params:returns-None", "SkBaseTransformStacking.set_params returns self",
+  "SkBaseTransformStacking.set_params returned None and sliced models_<i>__<name> with d+1+len(si): wrong for i >= 10 (stacking_indexed_key_routes_to_member failed on the regenerated slice)"),
+ ("C01", "SkBaseTransformStacking.clone:raises-after-set:method", "keeps an SkBaseTransformLearner member as it is",
+  "the stacking constructor re-wrapped learner members, so clone raised RuntimeError after set_params on advertised keys"),
+ ("C01", "ClassifierAfterKMeans.clone:raises", "ClassifierAfterKMeans.get_params reports",
+  "ClassifierAfterKMeans.get_params omitted estimator/clus (clone of a non-default estimator raised); set_params returned None"),
+ ("C01", "ApproximateNMFPredictor.transfer:raises", "ApproximateNMFPredictor always carries every NMF parameter",
+  "ApproximateNMFPredictor.get_params only reported the NMF parameters passed in: transfer between differently configured instances raised / differed"),
+ ("C01", "DummyTimeSeriesRegressor.get_params:raises", "DummyTimeSeriesRegressor stores its",
+  "DummyTimeSeriesRegressor never stored its `estimator` constructor argument: get_params raised AttributeError"),
+ ("C01", "ARTimeSeriesRegressor.__init__:raises", "ARTimeSeriesRegressor stores an estimator other than",
+  "ARTimeSeriesRegressor only stored `estimator` when it was 'dummy': constructor raised AttributeError otherwise"),
+ ("C01", "TimeSeriesDifference.set_params:raises:<own>", "TimeSeriesDifference.degree can be set",
+  "TimeSeriesDifference.degree was a read-only property: set_params(degree=...) raised"),
+ ("C15", "TransferTransformer.fit:raises:copy_estimator=True", "TransferTransformer.fit with copy_estimator=True no longer raises",
+  "TransferTransformer.fit(copy_estimator=True) raised AssertionError for fitted trees: assert_estimator_equal compared tree_ objects with =="),
 ]
 log = subprocess.run(["git", "-C", "/repo", "log", "--format=%h\t%s"], stdout=subprocess.PIPE, text=True).stdout.split("\n")
 def find(sub):
